@@ -22,6 +22,10 @@ func WithAnon(fn *ssa.Function) []*ssa.Function {
 // Instrs calls f for every instruction of fn (not of nested literals).
 func Instrs(fn *ssa.Function, f func(ssa.Instruction)) {
 	for _, b := range fn.Blocks {
+		if b == fn.Recover {
+			// the synthetic block that returns the named results after a recovered panic
+			continue
+		}
 		for _, in := range b.Instrs {
 			f(in)
 		}
@@ -463,4 +467,32 @@ func ExtractOf(c ssa.Value, i int) ssa.Value {
 		}
 	}
 	return nil
+}
+
+// Res returns result i of a return instruction, resolved through the result variables go/ssa
+// introduces in functions that defer (store, rundefers, load, return): the stored value is returned
+// when the store dominates the load.
+func Res(r *ssa.Return, i int) ssa.Value {
+	v := r.Results[i]
+	if u, ok := v.(*ssa.UnOp); ok && u.Op == token.MUL {
+		if a, ok := u.X.(*ssa.Alloc); ok && !a.Heap {
+			// the value stored last before the load on the straight-line path, if any
+			b := u.Block()
+			for k := InstrIndex(u) - 1; k >= 0; k-- {
+				if st, ok := b.Instrs[k].(*ssa.Store); ok && st.Addr == ssa.Value(a) {
+					return st.Val
+				}
+			}
+			// single predecessor chain
+			for p := b; len(p.Preds) == 1; {
+				p = p.Preds[0]
+				for k := len(p.Instrs) - 1; k >= 0; k-- {
+					if st, ok := p.Instrs[k].(*ssa.Store); ok && st.Addr == ssa.Value(a) {
+						return st.Val
+					}
+				}
+			}
+		}
+	}
+	return v
 }
